@@ -705,6 +705,49 @@ fn run_once(
                         if let Err(f) = checks::check_durable_image(&env, &model, true) {
                             report.fail(f.rule, format!("after emptying the device: {}", f.detail));
                         }
+                        // behavioural half: the emptied device accepts again what a fresh one does -
+                        // one record over (almost) the whole data area, then as many single-block
+                        // records as it has blocks (values stay below the 4 MiB limit)
+                        let blocks = (total - 16) as usize;
+                        if report.violation.is_none() && blocks >= 4 {
+                            let big_blocks = blocks.min(900) - 1;
+                            let big_key = b"refill:big".to_vec();
+                            let big = crate::harness::plain_value(249, 3, 1, big_blocks * 4096 - 600);
+                            let step = |what: &str, r: Result<(), feoxdb::FeoxError>, report: &mut BodyReport| {
+                                if let Err(e) = r {
+                                    report.fail("emptied-device-refuses-refill", format!("a device of {blocks} data blocks, emptied by deletes: {what} failed with {e:?} (a fresh device accepts it)"));
+                                }
+                            };
+                            step(&format!("insert of a {big_blocks}-block record"), env.st().insert(&big_key, &big).map(|_| ()), report);
+                            if report.violation.is_none() {
+                                step(&format!("flush of a {big_blocks}-block record"), env.st().flush(), report);
+                            }
+                            if report.violation.is_none() && env.st().get(&big_key).ok().as_deref() != Some(&big[..]) {
+                                report.fail("readback-mismatch", "the refill record does not read back".to_string());
+                            }
+                            if report.violation.is_none() {
+                                step("delete of the refill record", env.st().delete(&big_key), report);
+                                let _ = env.st().flush();
+                                let _ = env.settle();
+                                step("flush after deleting the refill record", env.st().flush(), report);
+                            }
+                            let singles = blocks.min(40);
+                            if report.violation.is_none() {
+                                for i in 0..singles {
+                                    step("insert of a single-block record", env.st().insert(format!("refill:{i:03}").as_bytes(), &crate::harness::plain_value(248, 3, i as u32, 100 + i)).map(|_| ()), report);
+                                }
+                                if report.violation.is_none() {
+                                    step(&format!("flush of {singles} single-block records"), env.st().flush(), report);
+                                }
+                                for i in 0..singles {
+                                    let _ = env.st().delete(format!("refill:{i:03}").as_bytes());
+                                }
+                                let _ = env.st().flush();
+                                if report.violation.is_none() {
+                                    report.count("refill_checks", 1);
+                                }
+                            }
+                        }
                     }
                 }
                 Err(feoxdb::FeoxError::OutOfSpace) => report.count("stopped_out_of_space", 1),
